@@ -230,6 +230,9 @@ func c15Common(r *Run, w *World, input, term string, subs []*c15Sub, t0 time.Tim
 	for _, p := range w.Panics() {
 		r.Fail("panic/"+term, "a library goroutine panicked during teardown", input, p, "no panic")
 	}
+	if w.watchPanic != "" {
+		r.Fail("watch-died", "Watch died of a panic while reading an inbound frame", head(input, 2500), w.watchPanic, "whatever octets arrive, Watch delivers, answers with generic_nack or returns")
+	}
 	if !w.doneClosed() {
 		r.Fail("done/"+term, "Done() is not closed after the terminating event", input, "Done() open", "Done() closed")
 	}
@@ -293,6 +296,18 @@ func c15Scenario(r *Run, ts []pduType, idx int, term string) {
 		var cs [][]int
 		for i, n := 0, 1+rng.Intn(3); i < n; i++ {
 			f := genUnsolicited(rng, ts, fresh())
+			if rng.Intn(3) == 0 {
+				// one of the pdu engine's hostile frames that does not end Watch on the reference decoder (well-formed or
+				// answered by generic_nack; on a tree whose ReadPDU panics on it: Watch dies, reported below)
+				if h, _ := genHostileFrame(rng, ts, fresh()); true {
+					if k, _, _ := classifyFrame(h); k == "pdu" || k == "panic" {
+						f = h
+					} else if k == "bad" {
+						f = h
+						c15ReleaseHeld(w, subs, true) // (no caller Write is open when the generic_nack is due)
+					}
+				}
+			}
 			fs = append(fs, f)
 			cs = append(cs, genCuts(rng, len(f)))
 		}
